@@ -17,7 +17,8 @@ def operands():
             # same keys in another insertion order, values equal only through the tolerance / crossed values
             ('dict_ab', {'apple': 1.0001, 'pear': 2}), ('dict_ba', {'pear': 2, 'apple': 1.0}),
             ('dict_crossed', {'pear': 1.0, 'apple': 2.0001}), ('dict_text', {'k': 'Hello, World!', 'j': 2}),
-            ('dict_text2', {'j': 2, 'k': 'hello world'})]
+            ('dict_text2', {'j': 2, 'k': 'hello world'}),
+            ('dict_A', {'A': 1}), ('dict_a', {'a': 1}), ('set_near', {1.0, 1.0005}), ('set_far', {1.0, 2.0})]
 
 
 class Money:
@@ -173,7 +174,8 @@ def bounded(arg):
         failures.append({'id': 'outcome', 'canon': canon, 'detail': '%s -> %s, expected %s %s' % (desc, got, expect, extra)})
     pairs = list(itertools.product(ops, ops))
     if quick:
-        pairs = [p for i, p in enumerate(pairs) if i % 2 == 0 or p[0][0] in ('nan', 'set', 'none') or p[1][0] in ('nan', 'set2', 'none', 'str')]
+        pairs = [p for i, p in enumerate(pairs) if i % 2 == 0 or p[0][0] in ('nan', 'set', 'none') or p[1][0] in ('nan', 'set2', 'none', 'str')
+                 or (p[0][0].startswith(('dict_', 'set_')) and p[1][0].startswith(('dict_', 'set_')))]
     for (na, a), (nb, b) in pairs:
         for name, (rel, neg) in R.items():
             if name.startswith('assert_length') and not isinstance(b, int):
@@ -264,6 +266,21 @@ def bounded(arg):
         evaluations += 1
         if got != 'failing':
             record('error operand does not count as failing', name, '%s(<exception>, 5)' % name, 'failing', got, repr(exc) if exc else '')
+    # the documented meaning of delta=None is the default tolerance
+    from pedal.assertions import runtime as _rt
+    from pedal.core.commands import clear_report as _clear
+    for a_, b_, want_equal in ((1.0, 1.0, True), (3, 3.0004, True), (3, 3.5, False)):
+        outcomes = []
+        for fn_name in ('assert_equal', 'assert_not_equal'):
+            _clear()
+            evaluations += 1
+            try:
+                outcomes.append('failing' if getattr(_rt, fn_name)(a_, b_, delta=None) else 'silent')
+            except Exception as e:
+                outcomes.append('raised %r' % e)
+        want = ['silent', 'failing'] if want_equal else ['failing', 'silent']
+        if outcomes != want:
+            record('delta=None is not the default tolerance', 'assert_equal', 'assert_equal/assert_not_equal(%r, %r, delta=None)' % (a_, b_), want, outcomes)
     samples = [{'assertion': 'assert_less', 'left': 'nan', 'right': 3, 'wrap': 'raw/raw'},
                {'assertion': 'assert_equal', 'left': 3, 'right': 3.0005, 'wrap': 'proxy/raw'}]
     return {'name': 'B-ops(assertions)', 'bound': '%d assertions x %d operand pairs (%d operand values incl. NaN, sets, nested, '
